@@ -136,6 +136,10 @@ func (x *Exec) Settle() {
 	}
 }
 
+// ForeignCascades tells the executor that n delete cascades of OTHER engines in this process
+// (recovered crash images) have completed: the hook counter is process-wide.
+func (x *Exec) ForeignCascades(n int64) { x.casBase += n }
+
 // Close closes the engine (waits for cascades first so the model stays exact).
 func (x *Exec) Close() {
 	if x.E == nil {
